@@ -103,6 +103,13 @@ CLAIMED = {
         note="Trusted: Coq kernel, translator (shape pin), harness; collision-free digests; C16 and C04 as given; pydantic parsing of list files.",
         technique="Coq proof (induction over the list tree, any adversarial file system) + AST-pinned shape + exhaustive per-file tamper injection on the implementation",
         design="7/C05"),
+    "C07": dict(
+        text="Coq theorems: sequential chains and the batch loop with an ordered map end by raising whenever some path is unreadable (every position, every T); the lazy pool with a failing input never finishes normally, "
+             "cannot deadlock and terminates within 5n+15T+12 queue operations under every schedule (C13). PARTIAL: which damage a decoder rejects is measured; error forwarding of asyncstdlib, tf.data and the Rust reader is "
+             "validated on the implementation: datasets x damaged shard (first/middle/last) x deleted/emptied/garbage x every interface x shuffled/ordered x parallelism under a watchdog; outcome must be an exception.",
+        note="Trusted: Coq kernel, translator, harness (watchdog 15 s = the bounded time); executor.map re-raises in order; Rust reader covered by runs only.",
+        technique="Coq proof (failure propagation in chains/batches; lazy-pool liveness over all schedules) + fault injection on every interface under a watchdog",
+        design="7/C07"),
     "C08": dict(
         text="Coq theorem: the merge ending every session keeps every shard entry of every list and every shard file, and touches no list outside the merged split (corollary of merge_spec); "
              "the generated switch shows the over-strict assertion is gone and the formerly failing reuse histories complete with exactly old+new examples (vm_compute instance). "
